@@ -23,6 +23,9 @@ CLAIMS["C17"] = ("Coq theorems C17_*: the run-time tables of all 7 fields the li
 CLAIMS["C09"] = ("Coq theorems C09_* (pure integer arithmetic, all sources, all widths/heights): Scale fails exactly when the request is smaller than the symbol in a scaled dimension, otherwise bounds are (0,0)-(width,height), the factor is the largest fitting integer, margins differ by at most one, every pixel is classified (module block or fill), accessors (Content, Metadata, CheckSum, ColorModel) pass through, a scaled barcode exposes no colour scheme; by induction over arbitrary CHAINS of scalings each stage meets the spec and the final image is one integer enlargement of the original modules. The source barcode is abstract (pixel function, optional scheme/checksum). Tied to the code by a differential run over 12 encoder families x 4 colour schemes and hand-made sources: full (width,height) windows, boundaries k*w-1/k*w/k*w+1 up to 2^31-1 with sampled At(), chains, explicit/default fill; extracted validator as oracle on the implementation's pixels; kernel vm_compute sample.", "DESIGN.md §5 C09")
 CLAIMS["C16"] = ("Coq theorems C16_*: (i) an interleaving semantics of N goroutines calling getPolynomial on one shared encoder whose thread program is built from structural facts extracted from /repo's current source by the gosync translator (Lock first, deferred Unlock, cache field private, no package-level variable assigned outside init, only the two RS encoders shared, four goroutines each closing its unbuffered channel last): for ANY number of goroutines, degrees, reachable initial cache and EVERY schedule: cache holds only generators, mutual exclusion, no two goroutines about to access the cache together, every returned call got gen(degree), no deadlock, every step decreases a measure (termination); (ii) unbuffered-channel protocol: a range consumer always drains the producer, a counting consumer leaves the producer running iff it receives fewer values than are sent, and encodeAlphaNumeric receives at least as many values as stringToAlphaIdx sends for every content incl. early returns. PARTIAL: the Go memory model/scheduler are not modelled; absence of data races in the compiled program is supported by race-detector runs (G in 2..64, GOMAXPROCS 1..16, cold start in fresh processes, results compared with the same calls alone, goroutine count before/after), not proved.", "DESIGN.md §5 C16")
 
+CLAIMS["C15"] = ("Coq theorems C15_*: structural facts extracted from the current source by gosync (no package-level variable assigned outside init, the only shared objects with mutating methods are qr.ec and datamatrix.ec, no slice parameter retained or written); the library as a state machine over the two shared generator caches: after ANY history of encode calls every call gets the Reed-Solomon results a fresh process computes (induction over arbitrary op histories, cache invariant); heap model of the only []byte entry point (aztec): for every history of encodes, caller writes and observations each barcode behaves as an immutable snapshot and encode leaves the heap unchanged, with a witness that a slice-retaining implementation (the repaired defect) violates it; Go map searches by value are independent of iteration order when values are unique. PARTIAL: equality with a freshly started process and determinism of the compiled program are observed by the differential run (one long history over all 11 encoders + Scale vs every call alone in a fresh process, every job issued twice; aliasing probes overwriting every input byte), not proved.", "DESIGN.md §5 C15")
+CLAIMS["C06"] = ("Coq theorems C06_*: source tables = GS1 tables (R = complement of L, G = reverse of R, parity rows); for EVERY byte string the EAN model accepts exactly 7/12 digits or 8/13 digits with correct GS1 check digit, never panics, and when it accepts: kind, 67/95 modules, guards, Content = full number, CheckSum = last digit, and the reference decoder (L/G/R sets + first-digit parity) applied to the modules returns exactly the full number; everything else is rejected. Tied to the code by generated tables, differential sweeps (thorough: all 10^7 seven-digit strings, all 10^8 eight-digit strings on the accept projection, 2M 12-digit strings), extracted decoder oracle on the implementation's pixels, kernel vm_compute sample.", "DESIGN.md §5 C06")
+
 ALL = ["C%02d" % i for i in range(1, 19)]
 
 
